@@ -2,6 +2,7 @@
   C18 — the shutdown request always wins: polling reports it and never blocks.
 -/
 import MicroHttp.ServerSpec
+import MicroHttp.Proofs.SrvPoll
 namespace MicroHttp.C18
 open MicroHttp
 
@@ -10,7 +11,9 @@ open MicroHttp
     client waiting) and whatever the other events of the batch are. -/
 theorem kill_wins (s : Srv) (h : SrvInv s) (evs : List Ev) (hev : EvsOK s evs) (hk : Ev.kill ∈ evs) :
     (requests s evs).2.1 = .aborted .shutdown := by
-  sorry
+  rcases requests_outcome s h evs hev with ⟨_, g⟩ | ⟨k, _⟩
+  · exact g
+  · exact absurd hk k
 
 /-- It is always in the batch: under the invariant at most 10 connections are registered, so
     listener + kill switch + connections never exceed the 12 slots of the event array; with
@@ -18,7 +21,9 @@ theorem kill_wins (s : Srv) (h : SrvInv s) (evs : List Ev) (hev : EvsOK s evs) (
 def registered (s : Srv) : Nat := 1 + (if s.hasKill then 1 else 0) + s.conns.length
 
 theorem registered_fits_batch (s : Srv) (h : SrvInv s) : registered s ≤ MAX_CONNECTIONS + 2 := by
-  sorry
+  have := h.cap
+  unfold registered
+  split <;> omega
 
 /-- Before it is signalled its presence changes nothing: for a batch without the kill event the
     poll does exactly the same with and without a registered kill switch. -/
@@ -26,11 +31,12 @@ theorem transparent (s : Srv) (evs : List Ev) (hk : Ev.kill ∉ evs) (b : Bool) 
     (requests { s with hasKill := b } evs).2 = (requests s evs).2 ∧
     (requests { s with hasKill := b } evs).1.conns = (requests s evs).1.conns ∧
     (requests { s with hasKill := b } evs).1.outstanding = (requests s evs).1.outstanding := by
-  sorry
+  rw [requests_setKill s evs hk b]
+  exact ⟨rfl, rfl, rfl⟩
 
 /-- The server never consumes the kill switch: handling events does not change whether it is
     registered, so it stays signalled (E8) and every later poll reports shutdown again. -/
 theorem kill_switch_kept (s : Srv) (evs : List Ev) : (requests s evs).1.hasKill = s.hasKill := by
-  sorry
+  exact requests_hasKill s evs
 
 end MicroHttp.C18
